@@ -484,9 +484,14 @@ def gen_container_history(rng, nops: int, keys: List[str], p_bnd: float, feature
         ops.append(op)
         _mirror_apply(mir, op)
     val = lambda: rng.choice(VALUES)  # noqa: E731
+    removed: List[List[str]] = []     # names deleted / moved away in the current or previous patch
+    for op in prefix or []:
+        if op[0] in ("del", "move") and op[2].startswith("/"):
+            removed.append([x for x in op[2].split("/") if x])
     while len(ops) < nops:
         if rng.random() < p_bnd and ops and ops[-1][0] not in ("bnd", "reopen", "peek"):
             ops.append(rng.choices([["bnd"], ["reopen"], ["reopen", "src"], ["peek"]], [50, 15, 20, 15])[0])
+            removed = removed[-4:]        # names removed in the previous patch stay candidates
             continue
         groups = mir.groups()
         # the receiver ("cwd"): the container object or an existing group of depth 1..3
@@ -497,6 +502,11 @@ def gen_container_history(rng, nops: int, keys: List[str], p_bnd: float, feature
         below = [p for p in existing if p[:len(cwd)] == cwd and len(p) > len(cwd)]
 
         def fresh():
+            # names removed earlier in this patch or in the previous one come back
+            live = [p for p in removed if tuple(p) not in mir.nodes
+                    and all(mir.nodes.get(tuple(p[:i])) != "D" for i in range(1, len(p)))]
+            if live and rng.random() < 0.3:
+                return list(rng.choice(live))
             # mostly below the receiver (relative spelling possible), one or two new segments,
             # possibly under an existing sub-group of the receiver
             if cwd and rng.random() < 0.8:
@@ -546,12 +556,14 @@ def gen_container_history(rng, nops: int, keys: List[str], p_bnd: float, feature
                 continue
             op = ["del", cwds, _spell(rng, cwd, t)]
             mir.rm(t)
+            removed.append(list(t))
         elif r < 0.47:
             s, d = some_existing(), fresh()
             if d[:len(s)] == s or s == cwd or cwd[:len(s)] == s:
                 continue                      # into the own subtree / the receiver itself: excluded
             op = ["move", cwds, _spell(rng, cwd, s), _spell(rng, cwd, d)]
             mir.cp(s, d, move=True)
+            removed.append(list(s))
         elif r < 0.57:
             s, d = some_existing(), fresh()
             if d[:len(s)] == s and rng.random() < 0.6:
@@ -569,6 +581,10 @@ def gen_container_history(rng, nops: int, keys: List[str], p_bnd: float, feature
                 continue
             dg = list(rng.choice(cands))
             name = rng.choice(keys) if rng.random() < 0.7 else ""
+            back = [p for p in removed if tuple(p) not in mir.nodes and mir.nodes.get(tuple(p[:-1])) == "G"]
+            if back and rng.random() < 0.4:
+                q = rng.choice(back)
+                dg, name = list(q[:-1]), q[-1]
             d = dg + ([name] if name else s[-1:])
             if d[:len(s)] == s and rng.random() < 0.6:
                 continue                      # (into the own subtree: kept, but rare)
@@ -635,6 +651,20 @@ def container_patterns() -> List[List[list]]:
     P.append([["set", "/", "a/x", "i:1"], ["attach", "/", "a", S_SIMPLE, 0], ["bnd"], ["set", "/a", "y", "i:2"], ["reopen", "src"],
               ["set", "/", "b", "i:3"], ["peek"], ["attach", "/a", "y", S_PERSON, 0], ["bnd"], ["del", "/a", "x"], ["bnd"],
               ["mkgrp", "/", "c/d"], ["reopen", "src"], ["peek"], ["set", "/c/d", "e", "i:4"], ["reopen"], ["reopen", "src"]])
+    # a name removed in the current patch comes back by every creating operation (group made in
+    # the current patch / in an earlier one; copy into the group OBJECT with name=, receivers / and G)
+    for early in (False, True):
+        mk = [["mkgrp", "/", "/g"], ["bnd"]] if early else [["bnd"], ["mkgrp", "/", "/g"]]
+        P.append([["set", "/", "/x", "i:1"], ["attach", "/", "/x", S_SIMPLE, 0], ["mkgrp", "/", "/y/z"]] + mk + [
+            ["set", "/g", "n1", "i:2"], ["mkgrp", "/g", "n2"], ["set", "/", "/g/n3", "i:3"], ["set", "/g", "n4", "i:4"],
+            ["mkgrp", "/", "/g/n5/q"], ["set", "/g", "n6", "i:6"], ["set", "/g", "n7", "i:7"], ["aset", "/g", "", "k", "i:1"],
+            ["del", "/g", "n1"], ["del", "/", "/g/n2"], ["move", "/g", "n3", "/m3"], ["del", "/g", "n4"], ["del", "/", "/g/n5"],
+            ["move", "/", "/g/n6", "/m6"], ["del", "/g", "n7"], ["adel", "/g", "", "k"],
+            ["copyinto", "/", "/x", "/g", "n1", False, False], ["copyinto", "/g", "/y", "/g", "n2", False, True],
+            ["copy", "/g", "/x", "n3", True, False, False], ["mkds", "/g", "n4", "i:9"], ["reqgrp", "/", "/g/n5"],
+            ["move", "/", "/m6", "/g/n6"], ["reqds", "/g", "n7", "i:5"], ["aset", "/", "/g", "k", "i:2"],
+            ["peek"], ["del", "/g", "n1"], ["copyinto", "/g", "/m3", "/g", "n1", True, False], ["reopen", "src"],
+            ["del", "/", "/g/n2"], ["bnd"], ["copyinto", "/", "/g/n1", "/g", "n2", False, False]])
     # create below a deleted ancestor (user level), with metadata on the old and the new nodes
     P.append([["set", "/", "a/q", "i:1"], ["attach", "/a/q", S_SIMPLE, 0], ["attach", "/a", S_CHILD, 1], ["bnd"], ["del", "/", "a"], ["bnd"],
               ["mkgrp", "/", "a/b/c"], ["set", "/", "a/b/c/d", "i:2"], ["attach", "/a/b", S_SIMPLE, 1], ["bnd"], ["set", "/a", "z", "i:3"],
@@ -642,6 +672,56 @@ def container_patterns() -> List[List[list]]:
     P.append([["set", "/", "a/q/r", "i:1"], ["bnd"], ["del", "/a", "q"], ["mkgrp", "/", "a/q/r/s"], ["bnd"], ["set", "/", "a/q/t", "i:2"],
               ["attach", "/a/q/r", S_SIMPLE, 0], ["bnd"], ["move", "/", "a/q", "m"], ["reqgrp", "/", "a/q/r"]])
     return P
+
+
+def recreate_shape(rng, k: List[str]) -> List[list]:
+    """A name removed in the current (or the previous) patch is created again: past a boundary, a
+    group G (made in the current or in an earlier patch) gets a child N, N is deleted or moved
+    away, leaving a deletion marker in the newest container file; then N comes back through one
+    of the creating operations -- copy into the group OBJECT G with name=N, copy / move to the
+    path G/N, create_dataset / create_group / require_* / G[N] = v -- issued on the root or on
+    G; the same for attributes (set, del, set within one patch)."""
+    val = lambda: rng.choice(VALUES)  # noqa: E731
+    bnd = lambda: [rng.choice([["bnd"], ["bnd"], ["reopen"], ["reopen", "src"], ["peek"]])]  # noqa: E731
+    G, N, X = "/" + k[0], k[1], "/" + k[2]
+    GN = f"{G}/{N}"
+    H: List[list] = [["set", "/", X, val()]]
+    if rng.random() < 0.5:
+        H += [["attach", "/", X, rng.choice(SCHEMA_NAMES), 0]]
+    if rng.random() < 0.3:
+        H += [["set", "/", "/" + k[3] + "0", val()]]
+    g_early = rng.random() < 0.5
+    if g_early:                                   # G made in an earlier patch than the marker
+        H += [["mkgrp", "/", G]] + bnd()
+        n_early = rng.random() < 0.4
+        if n_early:                               # ... and N too: the marker hides an older node
+            H = H[:-1] + [rng.choice([["set", "/", GN, val()], ["mkgrp", "/", GN + "/" + k[4]]])] + H[-1:]
+    else:
+        H += bnd() + [["mkgrp", "/", G]]
+        n_early = False
+    if not n_early:
+        H += [rng.choice([["set", "/", GN, val()], ["set", G, N, val()], ["mkgrp", G, N], ["mkgrp", "/", GN + "/" + k[4]]])]
+    if rng.random() < 0.3:
+        H += [["aset", G, N, "k", val()]]
+    # remove N in the same patch (or: in the previous one)
+    H += [rng.choice([["del", "/", GN], ["del", G, N], ["move", "/", GN, "/" + k[3] + "1"], ["move", G, N, "/" + k[3] + "1"]])]
+    if rng.random() < 0.25:
+        H += bnd()
+    recv = rng.choice(["/", G])
+    pth = N if recv == G and rng.random() < 0.7 else GN
+    H += [["copyinto", recv, X, G, N, rng.random() < 0.5, rng.random() < 0.3]] if rng.random() < 0.35 else [rng.choice([
+        ["copyinto", recv, X, G, N, rng.random() < 0.5, False],
+        ["copyinto", recv, X, G, N, False, True],
+        ["copyinto", G, X, "/" + k[0], N, True, False],
+        ["copy", recv, X, pth, rng.random() < 0.5, False, rng.random() < 0.3],
+        ["mkds", recv, pth, val()], ["set", recv, pth, val()], ["mkgrp", recv, pth], ["reqgrp", recv, pth],
+        ["reqds", recv, pth, rng.choice(INT_VALUES)], ["move", recv, X, pth], ["mkgrp", recv, pth + "/" + k[4]],
+    ])]
+    # attributes: set, delete, set again within one patch (on G and on the re-created node)
+    if rng.random() < 0.5:
+        t = rng.choice([G, GN])
+        H += [["aset", "/", t, "m", val()], ["adel", "/", t, "m"], ["aset", rng.choice(["/", G]), t, "m", val()]]
+    return H
 
 
 def targeted_prefix(rng, keys: List[str]) -> List[list]:
@@ -655,8 +735,10 @@ def targeted_prefix(rng, keys: List[str]) -> List[list]:
     val = lambda: rng.choice(VALUES)  # noqa: E731
     sc = lambda: rng.choice(SCHEMA_NAMES)  # noqa: E731
     a, ab, abc = "/" + k[0], f"/{k[0]}/{k[1]}", f"/{k[0]}/{k[1]}/{k[2]}"
-    shape = rng.randrange(3)
+    shape = rng.randrange(5)
     H: List[list] = []
+    if shape >= 3:
+        return recreate_shape(rng, k)
     if shape == 0:      # create below deleted ancestors
         H += [["set", "/", abc, val()]] + mb() + [["del", "/", rng.choice([a, ab])]] + mb()
         H += [rng.choice([["mkgrp", "/", f"{ab}/{k[3]}/{k[4]}"], ["mkgrp", "/", abc], ["set", "/", f"{abc}/{k[3]}", val()],
@@ -694,7 +776,8 @@ def do_request(root, it) -> list:
     ["at", cwd, request, mode]: the request (its paths are full paths, as the model sees them)
     is issued on the group at `cwd` as receiver; paths below the receiver are spelled relative
     to it (mode "rel", also multi-segment), everything else -- and everything in mode "abs" --
-    absolute; mode "obj" passes the source of a copy as node object.  If the receiver does not
+    absolute; mode "obj" passes the source of a copy as node object, mode "gobj" its destination
+    as group object (the parent) plus name=.  If the receiver does not
     exist (any more) or is a dataset, the call is made on the root."""
     recv, cwd, mode = root, [], "rel"
     if it[0] == "at":
@@ -734,7 +817,16 @@ def do_request(root, it) -> list:
             elif k == "adel":
                 del (recv if list(it[1]) == cwd else recv[sp(it[1])]).attrs[it[2]]
             elif k == "copy":
-                recv.copy(recv[sp(it[1])] if mode == "obj" else sp(it[1]), sp(it[2]))
+                pg = None
+                if mode == "gobj":           # destination as GROUP OBJECT (the parent) + name=
+                    par = list(it[2][:-1])
+                    pg = recv if par == cwd else (root.get("/" + "/".join(par)) if par else root)
+                    if pg is None or _is_ds(pg):
+                        pg = None            # no such group (the path form creates it): path form
+                if pg is not None:
+                    recv.copy(sp(it[1]), pg, name=it[2][-1])
+                else:
+                    recv.copy(recv[sp(it[1])] if mode == "obj" else sp(it[1]), sp(it[2]))
             else:
                 recv.move(sp(it[1]), sp(it[2]))
             return ["w", "T"]
@@ -870,14 +962,54 @@ def norm_model_trace(mtrace) -> List[list]:
     return mtrace
 
 
+def protocol_recreate_prefix(rng, keys: List[str], attr_keys: List[str]):
+    """Protocol-level instance of `recreate_shape`: (operations, {index: [receiver, mode]})."""
+    k = [rng.choice(keys) for _ in range(5)]
+    if len(set(k[:3])) < 3:
+        return [], {}
+    val = lambda: rng.choice(VALUES)  # noqa: E731
+    G, N, X = [k[0]], k[1], [k[2]]
+    GN = G + [N]
+    ops: List[list] = [["set", X, val()]]
+    deco: Dict[int, list] = {}
+    early = rng.random() < 0.5
+    if early:
+        ops += [["grp", G]]
+        if rng.random() < 0.4:
+            ops += [["set", GN, val()]]
+        ops += [["bnd"]]
+    else:
+        ops += [["bnd"], ["grp", G]]
+    if not any(o[0] == "set" and o[1] == GN for o in ops):
+        ops += [rng.choice([["set", GN, val()], ["grp", GN], ["grp", GN + [k[4]]]])]
+        if rng.random() < 0.5:
+            deco[len(ops) - 1] = [G, "rel"]
+    ops += [rng.choice([["del", GN], ["move", GN, [k[3] + "1"]]])]
+    if rng.random() < 0.5:
+        deco[len(ops) - 1] = [G, "rel"]
+    if rng.random() < 0.25:
+        ops += [["bnd"]]
+    ops += [rng.choice([["copy", X, GN], ["copy", X, GN], ["copy", X, GN], ["set", GN, val()], ["grp", GN], ["move", X, GN],
+                        ["grp", GN + [k[4]]]])]
+    deco[len(ops) - 1] = [rng.choice([[], G]), rng.choice(["gobj", "gobj", "rel", "obj"]) if ops[-1][0] == "copy" else "rel"]
+    if rng.random() < 0.5:
+        ak = rng.choice(attr_keys)
+        t = rng.choice([G, GN])
+        ops += [["aset", t, ak, val()], ["adel", t, ak], ["aset", t, ak, val()]]
+        deco[len(ops) - 1] = [G, "rel"]
+    return ops, deco
+
+
 def gen_protocol_history(rng, nops: int, keys: List[str], attr_keys: List[str], p_bnd: float, p_read: float,
                          below_ds: bool) -> List[list]:
     """Operations from ih5lib.gen_history interleaved with read requests on existing, missing
     and (optionally) below-dataset paths, and conditional requests."""
-    base = ih5lib.gen_history(rng, nops, p_bnd=p_bnd, keys=keys, attr_keys=attr_keys, values=VALUES,
-                              allow_self_copy=(rng.random() < 0.3))
+    pre, deco = protocol_recreate_prefix(rng, keys, attr_keys) if rng.random() < 0.3 else ([], {})
+    base = ih5lib.gen_history(rng, nops + len(pre), p_bnd=p_bnd, keys=keys, attr_keys=attr_keys, values=VALUES,
+                              allow_self_copy=(rng.random() < 0.3), prefix=pre)
     sh = ih5lib.Shadow()
     items: List[list] = []
+    removed: List[List[str]] = []        # names deleted / moved away in this or the previous patch
 
     def a_read():
         ex = sh.existing()
@@ -904,7 +1036,7 @@ def gen_protocol_history(rng, nops: int, keys: List[str], attr_keys: List[str], 
         """Choose the receiver: the root, or an existing group of depth 1..3 -- preferably one
         the request's (destination) path lies below, so that it is spelled relative."""
         if rng.random() < 0.45:
-            return req
+            return ["at", [], req, "gobj"] if req[0] == "copy" and rng.random() < 0.3 else req
         grps = [list(g) for g in sh.groups() if 1 <= len(g) <= 3]
         if not grps:
             return req
@@ -917,16 +1049,32 @@ def gen_protocol_history(rng, nops: int, keys: List[str], attr_keys: List[str], 
             # (quirk of the reference): from a group receiver the destination must be relative
             dabove = [g for g in grps if list(req[2][:len(g)]) == g and len(req[2]) > len(g)]
             if not dabove:
-                return req
-            cwd, mode = rng.choice(dabove), rng.choice(["rel", "rel", "obj"])
+                return ["at", [], req, "gobj"] if rng.random() < 0.4 else req
+            cwd, mode = rng.choice(dabove), rng.choice(["rel", "rel", "obj", "gobj", "gobj"])
         return ["at", cwd, req, mode]
 
-    for op in base:
+    for bi, op in enumerate(base):
         if op[0] == "bnd":
             if items and items[-1][0] in ("bnd", "reopen"):
                 continue
             items.append(["bnd"] if rng.random() < 0.75 else ["reopen"])
+            removed = removed[-3:]
             continue
+        if bi < len(pre):                   # targeted prefix: receivers / argument forms are fixed
+            items.append(["at"] + deco[bi] [:1] + [op] + deco[bi][1:] if bi in deco else op)
+            sh.apply(op)
+            if op[0] in ("del", "move"):
+                removed.append(list(op[1]))
+            continue
+        # names removed earlier in this patch (or the previous one) are created again
+        back = [q for q in removed if tuple(q) not in sh.nodes and all(sh.nodes.get(tuple(q[:i])) != "D" for i in range(1, len(q)))]
+        if back and rng.random() < 0.3 and op[0] in ("set", "grp", "copy", "move"):
+            q = list(rng.choice(back))
+            op = [op[0], q] + op[2:] if op[0] in ("set", "grp") else [op[0], op[1], q]
+            if op[0] in ("copy", "move") and q[:len(op[1])] == op[1]:
+                op = ["set", q, rng.choice(VALUES)]
+        if op[0] in ("del", "move"):
+            removed.append(list(op[1]))
         if rng.random() < 0.12:
             # adaptive: the request depends on the previous answer
             alt = a_read() if rng.random() < 0.5 else ["set", sh.fresh_path(rng, keys=keys), rng.choice(VALUES)]
@@ -1028,7 +1176,7 @@ def run(ctx: vlib.Ctx):
 
     # ---- (A) container level
     chists = list(container_patterns())
-    for _ in range(ctx.budget(36, 500)):
+    for _ in range(ctx.budget(30, 500)):
         keys = rng.sample(KEY_POOL, rng.randint(3, 6))
         prefix = targeted_prefix(rng, keys) if rng.random() < 0.4 else []
         chists.append(gen_container_history(rng, len(prefix) + rng.randint(4 if prefix else 6, ctx.budget(12 if prefix else 16, 22)), keys,
